@@ -380,7 +380,7 @@ func TestEnumerateFaults(t *testing.T) {
 
 // TestRandomPrograms: rapid varies the size and the follow-up; positions are still enumerated.
 func TestRandomPrograms(t *testing.T) {
-	kit.Check(t, 40, 1600, func(t *rapid.T) {
+	kit.Check(t, 100, 1600, func(t *rapid.T) {
 		p := program{
 			kind:     rapid.SampledFrom([]factoryKind{pm, pm, mg}).Draw(t, "kind"),
 			create:   rapid.SampledFrom([]string{"New", "CreateRandom"}).Draw(t, "create"),
